@@ -186,5 +186,55 @@ class PoW(Family):
         return ('accept' if got else 'reject'), mag != 0
 
 
+class PowHistories(Family):
+    """Every history of <= 4 (5) events over {select one of the 4 chains, CheckProofOfWork(probe)}: the verdict of every
+    call equals the reference verdict for the chain selected *at that moment*, whatever was selected or checked before
+    (each replay starts from the import-time state of the parameter globals)."""
+    name = 'pow_call_histories'
+    engine = 'E2'
+    nontrivial_rule = 'history contains a chain selection followed by a check'
+    PROBES = [(0, 0x1d00ffff), (0, 0x1e0377ae), (0, 0x207fffff), (0, 0x1d010000), (1 << 230, 0x1e0377ae), (0, 0x01003456)]
+
+    def events(self):
+        return [('sel', c) for c in CHAINS] + [('pow', i) for i in range(len(self.PROBES))]
+
+    def shards(self, tier):
+        return list(range(len(self.events())))
+
+    def cases(self, shard, tier):
+        from mc.core import all_sequences
+        return all_sequences(len(self.events()), 5 if tier == 'quick' else 6, first=shard)
+
+    def check(self, seq):
+        import bitcoin
+        import bitcoin.core
+        bitcoin.params = bitcoin.MainParams()
+        bitcoin.core.coreparams = bitcoin.core.CoreMainParams()
+        ev = self.events()
+        cur = 'mainnet'
+        sel_then_check = False
+        selected = False
+        for n, i in enumerate(seq):
+            kind, x = ev[i]
+            if kind == 'sel':
+                bitcoin.SelectParams(x)
+                cur = x
+                selected = True
+                continue
+            hv, nbits = self.PROBES[x]
+            h = hv.to_bytes(32, 'little')
+            want = R.pow_ok(h, nbits, R.POW_LIMIT[cur])
+            try:
+                bitcoin.core.CheckProofOfWork(h, nbits)
+                got = True
+            except bitcoin.core.CheckProofOfWorkError:
+                got = False
+            sel_then_check = sel_then_check or selected
+            if got != want:
+                raise Viol('CheckProofOfWork(hash=%#x, nBits=%#010x) on %s after history %r' % (hv, nbits, cur, [ev[j] for j in seq[:n]]),
+                           'accept' if want else 'reject', 'accept' if got else 'reject')
+        return 'ok', sel_then_check
+
+
 def families(tier):
-    return [Decode(), Encode(), PoW()]
+    return [Decode(), Encode(), PoW(), PowHistories()]
